@@ -282,7 +282,48 @@ func init() {
 			}},
 		Rule{ID: "C08.h", Explain: "ModPow reports a missing inverse as an error: its callers on the verification paths test only the error, so a nil result without an error (big.Int.Exp on a non-invertible base with a negative exponent) is dereferenced (the obligations of C19.b, same rule).",
 			Run: func(P *Program, R *Report) { sharedRule(P, R, "C19", "C19.b", "C08.h", nil) }},
+		Rule{ID: "C08.i", Explain: "optional key material: a well-formed public key that does not support revocation has no ECDSA key (the field is nil). In the functions reachable from the verification entry points the issuer's ECDSA key is handed to a call (the signature check dereferences it) only after a nil test of that field on every path from the entry point.",
+			Run: func(P *Program, R *Report) { optionalKeyMaterialRule(P, R, "C08.i") }},
 	)
+}
+
+// optionalKeyMaterialRule: see C08.i.
+func optionalKeyMaterialRule(P *Program, R *Report, rule string) {
+	const fd = "<gabikeys.PublicKey>.ECDSA"
+	n := 0
+	for _, fn := range P.reachableFuncs(c08Entries(P)...) {
+		if fn.Blocks == nil {
+			continue
+		}
+		for _, ci := range callsIn(fn) {
+			for k, a := range ci.Common().Args {
+				if typeShort(a.Type()) != "*crypto/ecdsa.PublicKey" || desc(a) != fd {
+					continue
+				}
+				n++
+				// RevocationSupported() is accepted as well: every constructor of a public key parses the ECDSA key
+				// whenever it reports true (parseRevocationKey), so for well-formed keys it implies the field is set
+				q := &MustPass{P: P, Match: func(at Atom) bool {
+					return (desc(at.V) == fd && at.Want == NonNil) || (isCallTo(at.V, "gabikeys.(*PublicKey).RevocationSupported") && at.Want == True)
+				}}
+				r := q.MustReach(fn, ci)
+				holds, why := r.Holds, r.Path
+				if !holds {
+					// or the callee tests what it is handed before it dereferences it
+					if g := staticCallee(ci); g != nil && g.Blocks != nil && k < len(g.Params) {
+						if ok, w := paramNilGuarded(P, g, g.Params[k], 0); ok {
+							holds = true
+						} else {
+							why += "\nand the callee does not test it either: " + w
+						}
+					}
+				}
+				R.seen(FuncKey(fn))
+				R.decide(rule, fmt.Sprintf("%s:ECDSA-as-arg#%d-of:%s", FuncKey(fn), k, calleeName(ci)), "the public key's ECDSA key (nil when the key does not support revocation) is nil-tested before it is handed to the call", holds, why, P.Pos(ci.Pos()))
+			}
+		}
+	}
+	R.decide(rule, "sites:count", "calls receiving the public key's ECDSA key on the verification paths were found (>= 1)", n >= 1, fmt.Sprintf("%d", n), "")
 }
 
 func stringConstsIn(fn *ssa.Function, fieldSuffix string) []string {
@@ -542,4 +583,54 @@ func errorResultsUsedRule(P *Program, R *Report, rule string, scope func(fn *ssa
 		}
 	}
 	R.decide(rule, "sites:count", fmt.Sprintf("calls with an error result were found (>= %d)", floor), n >= floor, fmt.Sprintf("%d", n), "")
+}
+
+// paramNilGuarded: every dereference of the pointer parameter p of g - a field access, a call outside the
+// module that receives it - comes after a nil test of p; calls inside the module are followed (depth 3).
+func paramNilGuarded(P *Program, g *ssa.Function, p *ssa.Parameter, depth int) (bool, string) {
+	if depth > 3 {
+		return false, "call chain too deep at " + FuncKey(g)
+	}
+	guarded := func(at ssa.Instruction) (bool, string) {
+		q := &MustPass{P: P, NoInterproc: true, Match: func(a Atom) bool { return a.V == ssa.Value(p) && a.Want == NonNil }}
+		r := q.MustReach(g, at)
+		return r.Holds, r.Path
+	}
+	n := 0
+	for _, u := range referrersOf(p) {
+		switch u := u.(type) {
+		case *ssa.DebugRef:
+		case *ssa.BinOp:
+			if (u.Op == token.EQL || u.Op == token.NEQ) && (isNilConst(u.X) || isNilConst(u.Y)) {
+				continue
+			}
+			return false, "used at " + P.Pos(u.Pos())
+		case ssa.CallInstruction:
+			n++
+			if h := staticCallee(u); h != nil && h.Blocks != nil && inModuleFn(h) {
+				for k, a := range u.Common().Args {
+					if a == ssa.Value(p) && k < len(h.Params) {
+						if ok, _ := guarded(u); ok {
+							continue
+						}
+						if ok, w := paramNilGuarded(P, h, h.Params[k], depth+1); !ok {
+							return false, w
+						}
+					}
+				}
+				continue
+			}
+			if ok, w := guarded(u); !ok {
+				return false, "handed to " + calleeName(u) + " at " + P.Pos(u.Pos()) + " without a nil test: " + w
+			}
+		case *ssa.FieldAddr, *ssa.UnOp:
+			n++
+			if ok, w := guarded(u); !ok {
+				return false, "dereferenced at " + P.Pos(u.Pos()) + " without a nil test: " + w
+			}
+		default:
+			return false, "used at " + P.Pos(u.Pos()) + " in a way that is not followed"
+		}
+	}
+	return true, ""
 }
